@@ -282,6 +282,10 @@ async def honest_async(case, out, loop):
                     state["frags"] += 1
                     moved = True
                     await asyncio.sleep(0)
+                if avail(ts, "s") and tc.is_closing():
+                    take(ts, "s", avail(ts, "s"))
+                if avail(tc, "c") and ts.is_closing():
+                    take(tc, "c", avail(tc, "c"))
                 if ts.is_closing() and not tc.is_closing() and not avail(ts, "s"):
                     tc.peer_closed()
                 if tc.is_closing() and not ts.is_closing() and not avail(tc, "c"):
@@ -352,6 +356,120 @@ async def honest_async(case, out, loop):
         tc.close()
         await quiesce(loop)
     finally:
+        await server_side.close()
+        await client_side.close()
+
+
+# =============================== part 1b: several honest peers serve the same blob at once ==========================
+
+def two_peers_strategy(tier):
+    big = 262144 if tier == "quick" else 2 * MiB
+    return st.fixed_dictionaries({
+        "blob": st.fixed_dictionaries({"kind": st.sampled_from(["random", "zeros", "json_prefix"]),
+                                       "size": st.one_of(st.integers(1, 5000), st.integers(5000, big), st.just(big)),
+                                       "seed": st.integers(0, 10 ** 6), "prefix_idx": st.integers(0, 9)}),
+        "known_length": st.sampled_from([False, False, True]),
+        "save_blobs": st.sampled_from([True, True, False]),
+        "peers": st.lists(st.fixed_dictionaries({"frag": st.sampled_from([1024, 4096, 16384, 65536, 0]),
+                                                 "start_delay": st.sampled_from([0, 0, 1, 3, 10])}), min_size=2, max_size=3),
+    })
+
+
+async def two_peers_async(case, out, loop):
+    from lbry.blob_exchange.server import BlobServerProtocol
+    from lbry.blob_exchange.client import BlobExchangeClientProtocol, request_blob
+    loop_errors = []
+    loop.set_exception_handler(lambda l, ctx: loop_errors.append(ctx))
+    server_side = await Side(loop).open()
+    client_side = await Side(loop, case["save_blobs"]).open()
+    pumps = []
+    try:
+        b = case["blob"]
+        content = make_content(b["kind"], b["size"], b["seed"], b["prefix_idx"])
+        h = await server_side.add_verified(content)
+        links = []
+        for i, peer in enumerate(case["peers"]):
+            server = BlobServerProtocol(loop, server_side.bm, ADDR, idle_timeout=IDLE_T, transfer_timeout=TRANSFER_T)
+            client = BlobExchangeClientProtocol(loop, DOWNLOAD_T)
+            ts = PipeTransport(loop, server, ('1.2.3.%d' % (10 + i), 4444))
+            tc = PipeTransport(loop, client, ('5.6.7.%d' % (10 + i), 3333))
+            ev = asyncio.Event()
+            ts.on_activity = tc.on_activity = ev.set
+            server.connection_made(ts)
+            client.connection_made(tc)
+            links.append((server, client, ts, tc, ev, peer))
+
+        async def pump(ts, tc, ev, peer):
+            frag = peer["frag"]
+            nbody = max(1, len(content) // 600)   # at most ~600 body fragments per peer
+            for _ in range(peer["start_delay"]):
+                await asyncio.sleep(0)
+            while True:
+                moved = False
+                if tc.out and not ts.is_closing():
+                    data = bytes(tc.out)
+                    del tc.out[:]
+                    ts.feed(data)
+                    moved = True
+                    await asyncio.sleep(0)
+                if ts.out and not tc.is_closing():
+                    n = len(ts.out) if not frag else min(len(ts.out), max(frag, nbody))
+                    data = bytes(ts.out[:n])
+                    del ts.out[:n]
+                    tc.feed(data)
+                    moved = True
+                    await asyncio.sleep(0)
+                # bytes written towards an end that is already gone are lost (as on a closed socket)
+                if ts.out and tc.is_closing():
+                    del ts.out[:]
+                if tc.out and ts.is_closing():
+                    del tc.out[:]
+                if ts.is_closing() and not tc.is_closing() and not ts.out:
+                    tc.peer_closed()
+                if tc.is_closing() and not ts.is_closing() and not tc.out:
+                    ts.peer_closed()
+                if not moved:
+                    ev.clear()
+                    if tc.out or ts.out:
+                        await asyncio.sleep(0)
+                        continue
+                    await ev.wait()
+        for (_, _, ts, tc, ev, peer) in links:
+            pumps.append(asyncio.ensure_future(pump(ts, tc, ev, peer)))
+        cb = client_side.bm.get_blob(h, len(content) if case["known_length"] else None)
+        results = await asyncio.wait_for(asyncio.gather(
+            *(request_blob(loop, cb, '5.6.7.%d' % (10 + i), 3333, CONNECT_T, DOWNLOAD_T, connected_protocol=links[i][1])
+              for i in range(len(links))), return_exceptions=True), 600)
+        await quiesce(loop)
+        for r in results:
+            if isinstance(r, BaseException) and not isinstance(r, (asyncio.CancelledError, OSError)):
+                out.violate("two-peers:request_blob-raises:%s" % type(r).__name__, repr(r)[:200])
+        winners = [r for r in results if not isinstance(r, BaseException) and r[1] is not None]
+        out.label("peers:%d" % len(links), "winners:%d" % len(winners))
+        out.nontrivial = True
+        if not cb.get_is_verified():
+            out.violate("two-peers:blob-not-verified", "results %r" % [type(r).__name__ if isinstance(r, BaseException) else r[0] for r in results])
+            return
+        out.check(cb.get_length() == len(content), "two-peers:verified-blob-has-wrong-length",
+                  "length %r, content %d" % (cb.get_length(), len(content)))
+        if case["save_blobs"]:
+            out.check(client_side.file_bytes(h) == content, "two-peers:file-differs", "")
+            out.check(h in client_side.bm.completed_blob_hashes, "two-peers:verified-blob-not-in-completed-set", "")
+        for ctx in loop_errors:
+            e = ctx.get("exception")
+            out.violate("two-peers:exception-in-callback:%s" % (type(e).__name__ if e is not None else "message"),
+                        (repr(e) if e is not None else str(ctx.get("message")))[:300])
+            break
+        for (_, _, ts, tc, _, _) in links:
+            if tc.fatal or ts.fatal:
+                # e.g. the loser parses late blob data that looks like json as a second response (InvalidStateError): its
+                # connection is dropped, the blob is complete through the winner - the statement promises nothing about the
+                # loser's connection, so this is recorded, not judged
+                out.label("loser-protocol-exception:%s" % type(tc.fatal or ts.fatal).__name__)
+    finally:
+        for p in pumps:
+            p.cancel()
+        await quiesce(loop)
         await server_side.close()
         await client_side.close()
 
@@ -836,6 +954,8 @@ PARTS = [
     Part("honest", honest_strategy, lambda c: _run(honest_async, c), 250, 1200, quick_shards=6, thorough_shards=16,
          essential=("boundary_inside", "boundary_at_frag_end", "split_exactly_at_header_end", "content:json_prefix", "repeat_request",
                     "size=2MiB")),
+    Part("two_peers", two_peers_strategy, lambda c: _run(two_peers_async, c), 120, 800, quick_shards=4, thorough_shards=16,
+         essential=("peers:2", "peers:3")),
     Part("server", server_strategy, lambda c: _run(server_async, c), 300, 1500, quick_shards=4, thorough_shards=16,
          essential=tuple("req:" + k for k in sorted(set(REQ_KINDS)))),
     Part("client", client_strategy, lambda c: _run(client_async, c), 300, 1500, quick_shards=6, thorough_shards=16,
